@@ -5,6 +5,7 @@ mod c01;
 mod c02;
 mod refcodec;
 mod c03;
+mod c04;
 mod c05;
 mod c06;
 mod c13;
@@ -35,6 +36,7 @@ fn main() {
         "c06" => c06::run(&args[2..]),
         "c05" => c05::run(&args[2..]),
         "c03" => c03::run(&args[2..]),
+        "c04" => c04::run(&args[2..]),
         "c13" => c13::run(&args[2..]),
         "c14" => c14::run(&args[2..]),
         "c18" => c18::run(&args[2..]),
